@@ -12,7 +12,7 @@
    offset (holds for any step size and any origin closer than half a step to
    zero; `wfb` decides it); `rect` = the current selection is a full rectangle. *)
 From Coq Require Import String Ascii ZArith QArith List Bool.
-From Verif Require Import NdIndex C11CMap C11Nd C11Sel C11Acc C11Wit.
+From Verif Require Import NdIndex C11CMap C11Nd C11Sel C11Acc C11Grid C11Wit.
 Import ListNotations.
 Close Scope Q_scope.
 Open Scope nat_scope.
@@ -167,6 +167,45 @@ Theorem C11_map_data_placement_partial :
        nth q out None = None).
 Proof. intros V R. exact get_map_data_placement. Qed.
 Print Assumptions C11_map_data_placement_partial.
+
+(* ---------------------------------------------------------------------
+   "any grid origin and step size": the coordinate hypothesis of `wf`
+   (axis_ok) holds for EVERY exact grid axis c[p] = o + index(p)*st with st > 0
+   and the origin strictly closer than half a step to zero; and the step /
+   presence the model derives from such an array are st / "present".
+   (Origins half a step or more away: C11_origin_refuted, C11_half_step_refuted.) *)
+Theorem C11_any_origin_and_step_partial :
+  forall (s : list nat) (d : nat) (o st st' : Q) (c : list Q),
+  (0 < st)%Q -> (- (1 # 2) < o / st)%Q -> (o / st < 1 # 2)%Q -> (st' == st)%Q ->
+  length c = size s ->
+  (forall p, p < size s -> (nth p c 0 == o + inject_Z (Z.of_nat (ix s d p)) * st)%Q) ->
+  axis_ok s d (c, st').
+Proof. exact exact_grid_axis_ok. Qed.
+Print Assumptions C11_any_origin_and_step_partial.
+
+Theorem C11_grid_step_size :
+  forall (n : nat) (f : nat -> nat) (o st : Q), (0 < st)%Q ->
+  forall p0 p1, p0 < n -> p1 < n -> f p0 = 0 -> f p1 = 1 ->
+  (step_of (Some (gc n f o st)) == st)%Q /\ coord (Some (gc n f o st)) = Some (gc n f o st).
+Proof. exact gc_step. Qed.
+Print Assumptions C11_grid_step_size.
+
+(* constructor + well-formedness for EVERY 2-D exact grid (>= 2 rows and
+   columns), any positive step sizes, any origin within half a step: `init`
+   succeeds, the original shape is (nr, nc) and the map satisfies `wf`, so all
+   _partial theorems above apply to it and (wf is preserved) to everything
+   selected from it. *)
+Theorem C11_exact_grid_wellformed :
+  forall (V R : Type) (nr nc : nat) (ox oy dx dy : Q),
+  2 <= nr -> 2 <= nc -> (0 < dx)%Q -> (0 < dy)%Q ->
+  (- (1 # 2) < ox / dx)%Q -> (ox / dx < 1 # 2)%Q -> (- (1 # 2) < oy / dy)%Q -> (oy / dy < 1 # 2)%Q ->
+  forall pid0 (rots0 : list R) (props0 : list (string * list V)) phases0 ind0,
+  length ind0 = nr * nc -> length pid0 = nr * nc ->
+  exists m : cmap V R,
+    init (Some (grid_x nr nc ox dx)) (Some (grid_y nr nc oy dy)) pid0 rots0 props0 phases0 ind0 = Ok m /\
+    oshape m = [nr; nc] /\ ind m = ind0 /\ pid m = pid0 /\ rots m = rots0 /\ props m = props0 /\ wf m.
+Proof. intros V R. exact exact_grid2_wf. Qed.
+Print Assumptions C11_exact_grid_wellformed.
 
 (* the decidable checks imply the Prop-level hypotheses (used by the
    correspondence to evaluate the guards on generated cases) *)
